@@ -6,8 +6,13 @@ Import ListNotations.
 Open Scope string_scope.
 Open Scope list_scope.
 
-(* abstract input, pairs (regex, value) on which Python's re matched, output observed on the implementation *)
-Definition case := (input * list (string * string) * output)%type.
+(* ONE call: abstract input, pairs (regex, value) on which Python's re matched, output observed on the
+   implementation *)
+Definition case1 := (input * list (string * string) * output)%type.
+(* a case is the LIFE of one Policy object (or of the Server that holds it): the calls made on it, in
+   order, each with the requester as the metadata store described it at the time of the call.  A
+   life of one call = a fresh object. *)
+Definition case := list case1.
 
 (* the regex engine enters as data *)
 Definition rm (mt : list (string * string)) (r v : string) : bool :=
@@ -22,13 +27,19 @@ Definition M (ras : list (reqattr * option string)) (sid : option string) (sidlo
            (ecs : list string) (ra : option string) : mdinfo :=
   {| md_ras := ras; md_sid := sid; md_sid_loc := sidloc; md_ecs := ecs; md_ra := ra |}.
 Definition mk (ident : ava) (pol : policy) (sp : string) (md : option mdinfo) (e : entry)
-           (mt : list (string * string)) (out : result ava) (caller : ava) (self : option ava) : case :=
+           (mt : list (string * string)) (out : result ava) (caller : ava) (self : option ava) : case1 :=
   ({| i_ident := ident; i_pol := pol; i_sp := sp; i_md := md; i_entry := e |}, mt,
    {| o_out := out; o_caller := caller; o_self := self |}).
 
-Definition c_in (c : case) : input := fst (fst c).
-Definition c_mt (c : case) : list (string * string) := snd (fst c).
-Definition c_obs (c : case) : output := snd c.
+(* the case writer's form of a life: the policy configuration is written once *)
+Definition stp (ident : ava) (sp : string) (md : option mdinfo) (e : entry)
+           (mt : list (string * string)) (out : result ava) (caller : ava) (self : option ava) (pol : policy) : case1 :=
+  mk ident pol sp md e mt out caller self.
+Definition life (pol : policy) (steps : list (policy -> case1)) : case := map (fun f => f pol) steps.
+
+Definition c_in (c : case1) : input := fst (fst c).
+Definition c_mt (c : case1) : list (string * string) := snd (fst c).
+Definition c_obs (c : case1) : output := snd c.
 
 (* ---- comparison of observations (dict order and the order inside list(set(..)) are incidental) *)
 (* strict: a str stays a str, a list stays a list *)
@@ -56,9 +67,9 @@ Definition result_eqb (veq : vals -> vals -> bool) (a b : result ava) : bool :=
 Definition veq_of (x : input) : vals -> vals -> bool :=
   match i_entry x with EServer _ => vals_eqb_held | _ => vals_eqb end.
 
-Definition model (c : case) : output := run (rm (c_mt c)) ectab (c_in c).
+Definition model (c : case1) : output := run (rm (c_mt c)) ectab (c_in c).
 
-Definition agrees (c : case) : bool :=
+Definition agrees1 (c : case1) : bool :=
   let m := model c in
   let o := c_obs c in
   result_eqb (veq_of (c_in c)) (o_out m) (o_out o)
@@ -70,7 +81,13 @@ Definition agrees (c : case) : bool :=
      end.
 
 (* the property, evaluated on what the implementation did *)
-Definition holds (c : case) : bool := spec_b (rm (c_mt c)) ectab (c_in c) (c_obs c).
+Definition holds1 (c : case1) : bool := spec_b (rm (c_mt c)) ectab (c_in c) (c_obs c).
+
+(* a life: every call agrees with the call-by-call model (Model.run_life = map run) and every call's
+   observed output satisfies the property against the requester as described at that call
+   (Spec.spec_life_b = all spec_b) *)
+Definition agrees (c : case) : bool := forallb agrees1 c.
+Definition holds (c : case) : bool := forallb holds1 c.
 
 (* finding classes (consulted only when holds is false).  Both findings are FIXED in /repo
    (findings/C10.json), so the driver reports a case of either class as a VIOLATION again; the
@@ -80,13 +97,21 @@ Definition holds (c : case) : bool := spec_b (rm (c_mt c)) ectab (c_in c) (c_obs
        the assertion, best_effort=False ignored)
    2 = C10-F2 (47cc754e): entity categories configured but the Policy has no metadata store
        (before the repair: the filter was skipped) *)
-Definition cls (c : case) : nat :=
+Definition cls1 (c : case1) : nat :=
   let x := c_in c in
   if class1 (rm (c_mt c)) ectab x then 1
   else if class2 ectab x then 2
   else 0.
+(* the class of the first call whose output breaks the property *)
+Definition cls (c : case) : nat :=
+  match filter (fun s => negb (holds1 s)) c with
+  | s :: _ => cls1 s
+  | [] => 0
+  end.
 
 Definition run := run_cases agrees holds cls.
-Definition model_v0 (c : case) : output := run_v0 (rm (c_mt c)) ectab (c_in c).
-Definition explain (c : case) :=
-  (model c, agrees c, holds c, cls c, flat (c_in c), ("v0", model_v0 c)).
+Definition model_v0 (c : case1) : output := run_v0 (rm (c_mt c)) ectab (c_in c).
+Definition explain1 (c : case1) :=
+  (model c, agrees1 c, holds1 c, cls1 c, flat (c_in c), ("v0", model_v0 c)).
+Definition explain (c : case) := map explain1 c.
+
